@@ -148,6 +148,11 @@ def recordToMem (stream : Bytes) (size : Nat) : R (Bytes × Bytes) :=
     let pad := if size % 512 = 0 then 0 else 512 - size % 512
     if rest.length < pad then .fail 17 else .ok (stream.take size ++ [0], rest.drop pad)
 
+/-- the C string a `record_to_memory` buffer holds: the bytes before its first NUL.  The buffer ends with the NUL that
+`record_to_memory` stores behind the record, so `strlen` / `strdup` on it stay inside by construction (this is the one
+place where the model does not spell out the single accesses: a 64 KiB name would cost the list-based `cstr` seconds) -/
+def cstrOf (buf : Bytes) : Bytes := buf.takeWhile (· ≠ 0)
+
 /-- `is_sparse_map_sane`: Σ count ≤ record_size, evaluated without overflow -/
 def sparseSane (recordSize : Nat) : List SparseEnt → Nat → Bool
   | [], _ => true
@@ -221,14 +226,12 @@ def rhLoop : Nat → Bytes → PaxOut → Bool → List Nat → RHOut
                 RHOut.ofR al (field hdr 124 12) fun sz =>
                 if sz < 1 ∨ sz > Sqfs.Consts.tarMaxSymlinkLen then ⟨.fail 4, al⟩
                 else RHOut.ofR (sz :: al) (recordToMem s sz) fun (buf, s') =>
-                  RHOut.ofR (sz :: al) (cstr buf (buf.length + 1) 0) fun l =>
-                  rhLoop fuel s' { o with link := some l, flags := o.flags ||| PAX_SLINK_TARGET } false (sz :: al)
+                  rhLoop fuel s' { o with link := some (cstrOf buf), flags := o.flags ||| PAX_SLINK_TARGET } false (sz :: al)
               else if t = 76 then                                       -- 'L' TAR_TYPE_GNU_PATH
                 RHOut.ofR al (field hdr 124 12) fun sz =>
                 if sz < 1 ∨ sz > Sqfs.Consts.tarMaxPathLen then ⟨.fail 5, al⟩
                 else RHOut.ofR (sz :: al) (recordToMem s sz) fun (buf, s') =>
-                  RHOut.ofR (sz :: al) (cstr buf (buf.length + 1) 0) fun n =>
-                  rhLoop fuel s' { o with name := some n, flags := o.flags ||| PAX_NAME } false (sz :: al)
+                  rhLoop fuel s' { o with name := some (cstrOf buf), flags := o.flags ||| PAX_NAME } false (sz :: al)
               else if t = 103 then                                      -- 'g' TAR_TYPE_PAX_GLOBAL: skipped
                 RHOut.ofR al (field hdr 124 12) fun sz =>
                 let sz' := if sz % 512 ≠ 0 then (sz + (512 - sz % 512)) % U64 else sz
